@@ -271,6 +271,8 @@ func fieldAtSuccess(fn *ssa.Function, F int, axis string, tbl *AxisTable) (strin
 						val = t
 					} else if t := constReturnFor(x.Val, axis); t != "" {
 						val = t
+					} else if t, _, ok := constTableLookup(x.Val, axis); ok && t != "" {
+						val = t
 					} else {
 						val = "?"
 						why = "a value that is not a constant is stored into the field"
@@ -285,6 +287,15 @@ func fieldAtSuccess(fn *ssa.Function, F int, axis string, tbl *AxisTable) (strin
 				// table-driven dispatch: the comma-ok of the lookup of the axis name
 				if ex, ok := x.Cond.(*ssa.Extract); ok && tbl != nil && tbl.Lookup != nil && ex.Tuple == ssa.Value(tbl.Lookup) && ex.Index == 1 && axis != "" {
 					if _, hit := tbl.Arms[axis]; hit {
+						walk(b.Succs[0], val, depth+1)
+					} else {
+						walk(b.Succs[1], val, depth+1)
+					}
+					return
+				}
+				// a second table keyed by the axis name (axis -> principal node type): the comma-ok of its lookup
+				if _, present, ok := constTableLookup(x.Cond, axis); ok && axis != "" {
+					if present {
 						walk(b.Succs[0], val, depth+1)
 					} else {
 						walk(b.Succs[1], val, depth+1)
@@ -584,4 +595,43 @@ func constReturnFor(v ssa.Value, axis string) string {
 		return r
 	}
 	return ""
+}
+
+// constTableLookup: v is the value (Extract #0) or the comma-ok (Extract #1) of a lookup, keyed by a string, in a
+// package-level map literal with constant values; returns the constant stored for key (as text) and whether the key
+// is present. ok is false when v is nothing of the kind.
+func constTableLookup(v ssa.Value, key string) (val string, present bool, ok bool) {
+	ex, isEx := v.(*ssa.Extract)
+	if !isEx {
+		return "", false, false
+	}
+	lk, isLk := ex.Tuple.(*ssa.Lookup)
+	if !isLk || !lk.CommaOk {
+		return "", false, false
+	}
+	ld, isLd := lk.X.(*ssa.UnOp)
+	if !isLd {
+		return "", false, false
+	}
+	g, isG := ld.X.(*ssa.Global)
+	if !isG || theWorld == nil {
+		return "", false, false
+	}
+	ents, isLit := theWorld.globalMapLiteral(g)
+	if !isLit {
+		return "", false, false
+	}
+	for _, e := range ents {
+		k, isS := constString(e.Key)
+		if !isS {
+			return "", false, false
+		}
+		if _, isC := e.Val.(*ssa.Const); !isC {
+			return "", false, false // not a table of constants (the selector table is handled elsewhere)
+		}
+		if k == key {
+			val, present = constText(e.Val), true
+		}
+	}
+	return val, present, true
 }
